@@ -37,7 +37,11 @@ def _dump(strategy):
     rows = [[cell_repr(v) for v in row] for row in df.itertuples(index=False, name=None)]
     pos = {}
     for k, m in strategy.broker.markets.items():
-        pos[k.name] = {f"{p.lower_tick}:{p.upper_tick}": [str(v.liquidity), str(v.pending_amount0), str(v.pending_amount1)] for p, v in m.positions.items()}
+        if hasattr(m, "balance") and hasattr(m, "token_config"):  # option market: cash + option holdings
+            pos[k.name] = {"cash": str(m.balance), **{n: [str(v.amount), str(v.avg_buy_price), str(v.buy_amount), str(v.avg_sell_price), str(v.sell_amount)]
+                                                       for n, v in m.positions.items()}}
+        else:
+            pos[k.name] = {f"{p.lower_tick}:{p.upper_tick}": [str(v.liquidity), str(v.pending_amount0), str(v.pending_amount1)] for p, v in m.positions.items()}
     rec = {"tag": strategy.tag, "pid": os.getpid(), "index": [str(i) for i in df.index], "rows": rows,
            "actions": [[str(a.timestamp), repr(a)] for a in strategy.actions],
            "wallet": {k.name: str(v.balance) for k, v in strategy.broker.assets.items()}, "positions": pos}
@@ -130,7 +134,60 @@ def _define():
         def finalize(self):
             _dump(self)
 
-    return {"keep": Keep, "idle": Idle, "trader": Trader, "trig": Triggered}
+    class OptBuyer(Strategy):
+        """buys exactly the best ask level at the first hour, sells part of it later"""
+
+        def __init__(self, tag):
+            super().__init__()
+            self.tag = tag
+
+        def on_bar(self, snapshot):
+            m = list(self.broker.markets.values())[0]
+            if snapshot.row_id == 0:
+                m.deposit(Decimal(3))
+                m.buy("C1", Decimal(5))
+            if snapshot.row_id == 1:
+                m.sell("C1", Decimal(2))
+
+        def finalize(self):
+            _dump(self)
+
+    class OptBuyer2(Strategy):
+        """buys into the second ask level"""
+
+        def __init__(self, tag):
+            super().__init__()
+            self.tag = tag
+
+        def on_bar(self, snapshot):
+            m = list(self.broker.markets.values())[0]
+            if snapshot.row_id == 0:
+                m.deposit(Decimal(2))
+                m.buy("C1", Decimal(6))
+                m.buy("P1", Decimal(1))
+
+        def finalize(self):
+            _dump(self)
+
+    class OptQuery(Strategy):
+        """only ASKS what a trade would cost (a read-only query), every bar"""
+
+        def __init__(self, tag):
+            super().__init__()
+            self.tag = tag
+            self.quotes = []
+
+        def on_bar(self, snapshot):
+            m = list(self.broker.markets.values())[0]
+            if snapshot.row_id == 0:
+                m.deposit(Decimal(1))
+            self.quotes.append(str(m.estimate_cost("C1", Decimal(5), "buy")))
+            self.quotes.append(str(m.estimate_cost("C1", Decimal(3), "sell")))
+
+        def finalize(self):
+            _dump(self)
+
+    return {"keep": Keep, "idle": Idle, "trader": Trader, "trig": Triggered, "obuy": OptBuyer, "obuy2": OptBuyer2, "oquery": OptQuery}
 
 
 STRATEGY_CLASSES = None
@@ -158,6 +215,17 @@ def make_setup(mix):
     from demeter.uniswap.helper import get_price_from_data
     from mc.worlds import uni
 
+    if mix == "options":
+        from demeter import MarketTypeEnum
+        from demeter._typing import USD
+        from demeter.deribit import DeribitOptionMarket
+        from mc.worlds import deribit as db
+
+        om = DeribitOptionMarket(MarketInfo("deribit", MarketTypeEnum.deribit_option), db.ETH)
+        odata = db.std_frame(3)
+        px = db.price_frame(odata).drop(columns=["USD"])
+        cfg = StrategyConfig(assets={db.ETH: Decimal(10)}, markets=[om])
+        return cfg, BacktestData({om.market_info: odata}, (px, USD)), BacktestConfig()
     ticks = [200000, 200013, 199991, 199700, 200250, 200040]
     pool_a = uni.pool_q0(0.05)
     raw = uni.raw_frame(ticks, 5 * 10**9, 2 * 10**18, 4 * 10**16, open_tick=ticks[0])
@@ -368,9 +436,11 @@ def judge_selection(part, mix, kinds, thorough):
         # number of units is known only after submission: probe once with the default schedule
         ControlledPool.schedule = None
         _, _, _, units = managed(mix, kinds, w, None)
-        all_sched = list(itertools.product(range(w), repeat=units))
+        # workers are identical forks of the same parent, so an assignment is determined by WHICH units share a worker (a set partition) and
+        # the submission order inside each block: enumerate restricted growth strings with at most w blocks instead of all w^n maps
+        all_sched = [sc for sc in itertools.product(range(w), repeat=units) if all(sc[i] <= max(sc[:i], default=-1) + 1 for i in range(units))]
         if units > 5:
-            all_sched = [s for s in all_sched if s[0] == 0][:: 3]
+            all_sched = all_sched[:: 3]
         for sched in all_sched:
             if len(set(sched)) < (2 if units >= 2 else 1) and not thorough and sched != tuple([0] * units):
                 pass
@@ -433,6 +503,14 @@ def main(run: Run):
     big = ("keep", "idle", "trader", "trig", "keep", "idle", "trig", "trader", "idle")
     mixes = ["one-pool", "two-pools"]
     jobs = []
+    okinds = ["obuy", "oquery", "obuy2", "idle"]
+    osels = []
+    for n in (1, 2, 3):
+        osels += list(itertools.permutations(okinds, n))
+    osels += [("obuy", "obuy"), ("oquery", "oquery", "obuy")]
+    for s in osels:
+        # the hourly option book lives in the shared data frame as nested lists: a fill or a quote by one strategy must not reach the others
+        jobs.append((run.seed, "options", tuple(s), run.thorough))
     for mix in mixes:
         for s in sels:
             if mix == "two-pools" and not run.thorough and len(s) == 3 and s[0] not in ("keep", "trig"):
@@ -443,7 +521,7 @@ def main(run: Run):
     for r in pmap(work, jobs):
         run.merge(r)
     part = Part(run.seed)
-    for mix, ks, th in [("one-pool", ("keep", "idle", "trader"), 2), ("two-pools", ("trig", "keep"), 2), ("one-pool", big, 2)] + \
+    for mix, ks, th in [("one-pool", ("keep", "idle", "trader"), 2), ("two-pools", ("trig", "keep"), 2), ("one-pool", big, 2), ("options", ("obuy", "oquery", "obuy2"), 2)] + \
             ([("two-pools", big, 3), ("one-pool", ("idle", "keep", "trig"), 3)] if run.thorough else []):
         real_pool(part, mix, ks, th)
     run.merge(part.result())
@@ -452,13 +530,13 @@ def main(run: Run):
         "states": c.get("strategy_results_compared", 0), "transitions": c.get("schedules", 0) + c.get("real_pool_runs", 0),
         "traces_validated_against_impl": c.get("schedules", 0) + c.get("real_pool_runs", 0), "evaluations": c.get("strategy_results_compared", 0),
         "distinct_nontrivial": c.get("schedules", 0),
-        "rule": "2 market mixes x every ordered selection of <= 3 of 4 strategies (plus repeated strategies and a 9-strategy batch) x {in-process, pool with 2 and 3 workers} x "
-                "EVERY assignment of the submitted units to workers (w^n; for the batch every third assignment with unit 0 on worker 0); plus runs under the real multiprocessing.Pool",
+        "rule": "3 market mixes (one pool, two pools, an hourly option market whose order book lives in the shared data frame) x every ordered selection of <= 3 of 4 strategies (plus repeated strategies and a 9-strategy batch) x {in-process, pool with 2 and 3 workers} x "
+                "EVERY partition of the submitted units among at most w identical workers (restricted growth strings; for the 9-strategy batch every third one); plus runs under the real multiprocessing.Pool",
         "schedules": c.get("schedules", 0), "real_pool_runs": c.get("real_pool_runs", 0),
         "exhaustive": True, "completed_bound": {"selections": len(jobs), "workers": [1, 2, 3]},
     }
     return run.finish(cov, ["workers share no memory after the fork and the manager uses no other channel, so only the task -> worker assignment (and the order within a worker) "
-                            "is observable; all assignments are enumerated", "the controlled pool un-pickles each unit separately, as the real pool's task queue does; the real "
+                            "is observable; workers being identical, all set partitions of the units into <= w workers are enumerated", "the controlled pool un-pickles each unit separately, as the real pool's task queue does; the real "
                             "pool is run as a conformance check of this substitute", "strategies do not read state they did not create"])
 
 
